@@ -111,7 +111,9 @@ func runC15(c *core.Ctx) {
 		if closeCall != nil {
 			cc := ssax.CallOf(closeCall)
 			srcs := pv.Sources(cc.Value)
-			elem := ssax.All(srcs, func(s ssax.Src) bool { return s.Kind == "param" && paramIndex(s.V.(*ssa.Parameter)) == 0 && s.PathIs("[]") })
+			elem := ssax.All(srcs, func(s ssax.Src) bool {
+				return s.Kind == "param" && paramIndex(s.V.(*ssa.Parameter)) == 0 && s.PathIs("[]")
+			})
 			l := ssax.InnermostLoop(loops, closeCall.Block())
 			why = "Close is not applied to every element of the slice"
 			if elem && l != nil {
